@@ -12,9 +12,10 @@ import FastTicc.Props.Final
 import FastTicc.Props.C04
 import FastTicc.Props.C10
 import FastTicc.Props.C07mask
+import FastTicc.Props.C07
 
 namespace FastTicc.FrontEnd
-open FastTicc FastTicc.Stack
+open FastTicc FastTicc.Stack FastTicc.Viterbi
 
 variable {α : Type} [Field α] [LinearOrder α] [IsStrictOrderedRing α]
 
@@ -164,6 +165,104 @@ theorem jointBetas_spec (masked : Bool) (a : Args α) (lens : List Nat) (hpos : 
       rw [← hi', List.getElem?_eq_getElem (by rw [hlen]; exact hi)] at h1
       rw [hget, Option.some.inj h1]
       simp [hlast]
+
+omit [LinearOrder α] [IsStrictOrderedRing α] in
+/-- with a scalar caller-side switching cost the masked per-pair vector of the front-end model is C07's
+`jointBeta`. -/
+theorem jointBetas_masked_scalar (a : Args α) (b : α) (hb : a.beta = fun _ => b) (lens : List Nat) :
+    jointBetas true a lens = Joint.jointBeta b lens := by
+  unfold jointBetas Joint.jointBeta
+  apply List.ext_getElem
+  · simp [maskTemplate_length]
+  · intro i h1 h2
+    simp only [List.length_map, List.length_range] at h1
+    have hm : i < (maskTemplate lens).length := by rw [maskTemplate_length]; exact h1
+    simp [hb, List.getD_eq_getElem?_getD, List.getElem?_eq_getElem hm]
+
+omit [LinearOrder α] [IsStrictOrderedRing α] in
+/-- a table built point by point over `range T` with the per-pair costs looked up in a list of length `T`
+is the zip of its rows with that list. -/
+theorem costPoints_eq_zip (inp : Run.Input α) (orc : Run.Oracles α) (s : Run.St α)
+    (hlen : inp.betas.length = inp.T) :
+    Run.costPoints inp orc s = withVectorBeta ((Run.costPoints inp orc s).map (·.1)) inp.betas := by
+  unfold withVectorBeta
+  apply List.ext_getElem
+  · simp [Run.costPoints, hlen]
+  · intro i h1 h2
+    have hi : i < inp.T := by simpa [Run.costPoints] using h1
+    have hb : i < inp.betas.length := by rw [hlen]; exact hi
+    simp [Run.costPoints, List.getD_eq_getElem?_getD, List.getElem?_eq_getElem hb]
+
+/-- JOINT FRONT END WITH THE MASK APPLIED (the documented behaviour): for a scalar switching cost `b ≥ 0`
+the labelling a joint call returns minimises — over all labellings of the concatenated windows — the
+assignment cost under the returned model plus `b` for every switch INSIDE a series, and the reported cost
+is that value: labels at the end of one series and the start of the next are independent. -/
+theorem joint_masked_within_optimal (a : Args α) (b : α) (hb0 : 0 ≤ b) (hb : a.beta = fun _ => b)
+    (orc : Run.Oracles α) (init : List Nat) (series : List (List (List α)))
+    (_hW : 1 ≤ a.W) (hT : ∀ s ∈ series, a.W ≤ s.length) (hne : series ≠ []) (hK : 0 < a.K) (hl : 1 ≤ a.limit)
+    (out : Out α) (h : joint true a orc init series = .ok out) :
+    let lens := series.map (fun s => stackedLen s.length a.W)
+    ∃ rows : List (Nat → α), rows.length = lens.sum ∧
+      out.report.cost = Joint.withinObjective rows b lens out.report.labels ∧
+      ∀ q, q.length = lens.sum → (∀ l ∈ q, l < a.K) →
+        out.report.cost ≤ Joint.withinObjective rows b lens q := by
+  intro lens
+  unfold joint at h
+  dsimp only at h
+  set stacked := stackMulti series a.W with hst
+  set inp := runInput a stacked (jointBetas true a lens) with hinp
+  have hlenS : stacked.length = lens.sum := by rw [hst, stackMulti_length]
+  have hpos : ∀ n ∈ lens, 0 < n := by
+    intro n hn
+    obtain ⟨s, hs, rfl⟩ := List.mem_map.mp hn
+    have := hT s hs
+    unfold stackedLen; omega
+  have hTpos : 0 < inp.T := by
+    show 0 < stacked.length
+    rw [hlenS]
+    obtain ⟨s, hs⟩ := List.exists_mem_of_ne_nil series hne
+    have hmem : stackedLen s.length a.W ∈ lens := List.mem_map.mpr ⟨s, hs, rfl⟩
+    exact Nat.lt_of_lt_of_le (hpos _ hmem) (nat_le_sum_of_mem lens _ hmem)
+  have hbl : inp.betas.length = inp.T := by
+    show (jointBetas true a lens).length = stacked.length
+    rw [hlenS]; simp [jointBetas]
+  have hbnn : ∀ x ∈ inp.betas, 0 ≤ x := by
+    intro x hx
+    have : x ∈ Joint.jointBeta b lens := by rw [← jointBetas_masked_scalar a b hb lens]; exact hx
+    exact Joint.masked_beta_nonneg b hb0 (maskTemplate lens) x this
+  cases hf : Final.fit inp orc a.logT a.thr a.biased a.limit init with
+  | error e => rw [hf] at h; cases h
+  | ok rep =>
+    rw [hf] at h
+    cases h
+    unfold Final.fit at hf
+    cases hr : Run.run inp orc a.limit init with
+    | error e => rw [hr] at hf; cases hf
+    | ok o =>
+      rw [hr] at hf
+      cases hf
+      obtain ⟨sFit, _, hlab, hcost, hopt⟩ := Run.run_returned_optimal inp orc hK hTpos hbnn a.limit hl init o hr
+      set rows := (Run.costPoints inp orc sFit).map (·.1) with hrows
+      have hz : Run.costPoints inp orc sFit = withVectorBeta rows (Joint.jointBeta b lens) := by
+        rw [← jointBetas_masked_scalar a b hb lens]
+        exact costPoints_eq_zip inp orc sFit hbl
+      have hrl : rows.length = lens.sum := by
+        rw [hrows, List.length_map, Run.costPoints_length]
+        exact hlenS
+      have hvalid := Final.report_labels_valid inp orc a.logT a.thr a.biased hK hTpos a.limit hl init
+        (Final.report inp orc a.logT a.thr a.biased o) (by unfold Final.fit; rw [hr])
+      refine ⟨rows, hrl, ?_, ?_⟩
+      · show o.final.cost = _
+        rw [hcost, hz]
+        exact Joint.totalCost_masked_eq_within rows b lens hpos hrl.symm _
+          (by rw [hrl]; exact hvalid.1.trans hlenS)
+      · intro q hq1 hq2
+        show o.final.cost ≤ _
+        rw [hcost]
+        have := hopt q (by rw [hq1]; exact hlenS.symm) hq2
+        rw [hz] at this
+        rw [hz, ← Joint.totalCost_masked_eq_within rows b lens hpos hrl.symm q (by rw [hrl]; exact hq1)]
+        exact this
 
 /-- non-vacuity: a concrete joint run over ℚ (two series of lengths 3 and 4, `W = 2`) returns label
 lists of lengths 3 and 4 with the trailing marker. -/
